@@ -45,8 +45,8 @@ class ExportSim:
 
     def rule(self, prop):
         return ('plans drawn from VERIF_SEED: world (every convention, holes, non-round coordinates) x 1-3 export steps '
-                '(format x target form: str / Path / explicit component handles) x faults at open / k-th write / close / '
-                'crash at k-th write x exit|crash_after_ack, each faulted step followed by a fault-free retry. Non-trivial = at '
+                '(format x target form: str / Path / explicit component handles) x faults at open / k-th write / close (the buffered tail is lost) / '
+                'crash at k-th write x exit|crash_after_ack, each faulted step followed by a fault-free retry; several formats under one file stem; an earlier export of another dataset of the same size in the same process; every acknowledged export read again at the end. Non-trivial = at '
                 'least one acknowledged export was read back and judged by another process. Distinct = distinct signature '
                 '(convention, materialisation, holes?, per-step format/target/end/fired faults/acked).')
 
